@@ -351,10 +351,10 @@ fn multi_body_x(behs: [Beh; 3], timeout: Option<u64>, exit_one: Option<Exit>, me
             }
             let key;
             match res {
-                Err(_) => {
+                Err(e) => {
                     key = "send-failed".to_string();
                     if exit_one.is_none() {
-                        bad.push("multi_call failed to send although every callee was running".into());
+                        bad.push(format!("multi_call failed ({e}) although every callee was running"));
                     }
                 }
                 Ok(v) => {
@@ -529,6 +529,24 @@ pub fn plan(tier: &str) -> Plan {
         ([Beh::ReplyAfterMs(3), Beh::ReplyAfterMs(1), Beh::ReplyAfterMs(2)], None, Some(Exit::Stop)),
     ] {
         units.push(Unit::explore(Job::new(format!("multi/{behs:?}/{timeout:?}/{exit:?}").replace(['(', ')', ' '], ""), cfg.clone(), Some(bound), multi_body(behs, timeout, exit))));
+    }
+    // the caller's own send loop seen at the granularity of its channel operations: a member may have answered, or
+    // dropped its port, or died, while the caller is still sending to the rest of the list (on a multi-threaded
+    // runtime the members run in parallel with the caller)
+    let k_kinds: &'static [vsched::PointKind] = &[vsched::PointKind::Channel];
+    let fine = ExecCfg {
+        filter: Some(Arc::new(move |k, _l, t: &vsched::TaskInfo| k_kinds.contains(&k) && t.role == "caller")),
+        tolerate_lib_panics: true,
+        ..Default::default()
+    };
+    for (behs, timeout, exit) in [
+        ([Beh::DropPort, Beh::ReplyNow, Beh::ReplyNow], None, None),
+        ([Beh::ReplyNow, Beh::DropPort, Beh::ReplyFromTask], Some(10), None),
+        ([Beh::DropPort, Beh::DropPort, Beh::ReplyNow], Some(5), None),
+        ([Beh::ReplyNow, Beh::Hold, Beh::ReplyNow], Some(5), Some(Exit::Kill)),
+        ([Beh::ReplyFromTask, Beh::ReplyNow, Beh::ReplyAfterMs(2)], None, Some(Exit::Stop)),
+    ] {
+        units.push(Unit::explore(Job::new(format!("multi-fine/{behs:?}/{timeout:?}/{exit:?}").replace(['(', ')', ' '], ""), fine.clone(), Some(bound), multi_body(behs, timeout, exit))));
     }
     // a callee listed more than once (a member list merged from two groups): one result per position
     for (behs, members) in [
